@@ -278,6 +278,18 @@ harness(void) {
 		if ('c' == op || 'k' == op) {
 			r = tp_threads_create(tp, 'k' == op);
 			V_ASSERT(0 == r || EBUSY == r, "tp_threads_create: 0, or EBUSY after shutdown");
+			if (0 == r) {	/* a worker whose pthread_create() failed must not be reported as running (sends to it would be lost) */
+	/* (no do/while(0) wrapper: cbmc numbers it as a loop and the per-job unwindset names harness loops by number) */
+#define CHK_NOT_RUNNING(t) if (slot_of_thread(t) < 0 && !('k' == op && 0 == (t))) \
+	{ V_ASSERT(0 == tpt_is_running(tp_thread_get(tp, (size_t)(t))), "a worker whose thread could not be created is not reported as running"); }
+				CHK_NOT_RUNNING(0);
+#if NTHR > 1
+				CHK_NOT_RUNNING(1);
+#endif
+#if NTHR > 2
+				CHK_NOT_RUNNING(2);
+#endif
+			}
 		} else if ('a' == op) {
 			int save = run_ctx, sb = v_ew_budget;
 			run_ctx = 1;
